@@ -349,7 +349,16 @@ func (r *Report) writeEvidence(dir, prop string, mine []*OblSummary, nobl, disch
 			}
 		}
 	}
+	nIface := 0
+	for _, k := range sortedKeys(r.Prog.Contracts) {
+		if r.Prog.Contracts[k].Kind == "interface" {
+			nIface++
+		}
+	}
 	assumptions = append(assumptions,
+		fmt.Sprintf("%d interface-method contracts (interface pkg.I.M) are ASSUMED of every implementation that is not in /repo (user-written parsers, nodes, interpreters, readers, files); for the implementations in /repo they are proof obligations where the implementation's contract includes/refines them", nIface),
+		"function values stored in a combinator (Sequence lookup/length functions, closures' captured variables) are not reassigned after construction; a closure's invariant on its captured variables ([inv]) is assumed at its entry and proved at its creation and at each of its returns",
+		"ghost state (Ghost* variables and functions) is proof instrumentation: its updates are part of the contracts, not of the code",
 		"integers are mathematical Int in the VCs; every + - * on a machine integer type carries an explicit no-overflow obligation (safe/overflow#...) unless the contract is flagged arith_mathematical",
 		"slices: offset+cap <= 2^62 (address space bound) assumed for every slice value that enters from outside",
 		"pointer/slice/map values read from parameters or the heap refer to objects allocated before the read (no dangling future ids)",
